@@ -31,6 +31,21 @@ def observe(P):
     except Exception as e:
         o["tcb"] = None
         o["tcb_exc"] = f"{type(e).__name__}: {e}"
+    # the same queries again on the SAME object, after tighten_column_bounds() has run: the reported bounds are
+    # functions of the declared box, not of what was asked before
+    again = {}
+    try:
+        cb = np.asarray(P.column_bounds()).tolist()
+        again["lo"], again["hi"] = (cb[0], cb[1]) if len(cb) == 2 else ([], [])
+        again["row_bounds"] = [tuple(int(v) for v in r) for r in np.asarray(P.row_bounds()).tolist()]
+        again["ncomb"] = [int(v) for v in np.asarray(P.n_row_combinations).tolist()]
+        again["var_bounds"] = [tuple(int(x) for x in v.bounds.as_tuple()) for v in P.A.variables]
+        if o["tcb"] is not None:
+            t = np.asarray(P.tighten_column_bounds())
+            again["tcb"] = ([int(v) for v in t[0].tolist()], [int(v) for v in t[1].tolist()])
+    except Exception as e:
+        again["exc"] = f"{type(e).__name__}: {e}"
+    o["again"] = again
     return o
 
 def obs_term(o):
@@ -66,6 +81,16 @@ def oracle_system(M, bnds, o=None, points=None, rng=None):
             return fails, 0, 0
     n = len(bnds)
     small = box_size(bnds) <= ENUM_CAP
+    ag = o.get("again")
+    if ag is not None:
+        for k in ("lo", "hi", "row_bounds", "ncomb", "tcb"):
+            if k in ag and ag[k] != o[k]:
+                fail("history", f"{k} changed after tighten_column_bounds() was called on the same polyhedron: first {o[k]}, then {ag[k]}")
+                break
+        if "exc" in ag:
+            fail("history", f"re-querying the polyhedron after tighten_column_bounds() raised {ag['exc']}")
+        if "var_bounds" in ag and ag["var_bounds"] != [tuple(x) for x in bnds]:
+            fail("history", f"declared variable bounds changed after tighten_column_bounds(): {ag['var_bounds']}")
     # A / b / column_bounds / A_max / A_min by their meaning
     if o["A"] != [r[1:] for r in M] or o["b"] != [r[0] for r in M]:
         fail("A_b", f"A/b split wrong: {o['A']} {o['b']}")
